@@ -209,7 +209,11 @@ def oracle_case(ck: Check, camp, slot: str, s: str, model: str, opts: dict, form
         names = {x.id for x in ast.walk(ast.parse(adv.code)) if isinstance(x, ast.Name)} | {
             t.target.id for t in ast.walk(ast.parse(adv.code)) if isinstance(t, ast.AnnAssign) and isinstance(t.target, ast.Name)
         }
-        if s not in ca and s not in names and model != "dataclasses.dataclass" and not opts.get("no_alias"):
+        import unicodedata
+
+        # Python NFKC-normalises identifiers: a name used directly as identifier shows up normalised in the AST
+        # (whether the wire name survives that is C07's question, not C10's)
+        if s not in ca and s not in names and unicodedata.normalize("NFKC", s) not in names and model != "dataclasses.dataclass" and not opts.get("no_alias"):
             ck.fail({**base, "mechanism": "literal_mismatch"}, inp, f"original member name {s!r} is not kept as alias/key literal; string constants: {ca[:8]}")
         return
     if n in cn:
